@@ -10,7 +10,7 @@ READY = True
 XCHECK = 30
 RULE = ("cases: `crc` = CRC model vs crc32fast through seglog::calculate_crc32c (lengths 4..140 dense (thorough 4..600), 1023..65537, split feeds); "
         "`rt` = create/append/sync then read back by Random read, Sequential read, Iter, parse_record and Writer::open: data sizes 0..300 dense "
-        "(thorough 0..4200 dense), every size within 9 (thorough 40) of 128 / 2048 / 4096 / 16 KiB / 64 KiB, 200000 (thorough 1 MiB, 1 MiB+3), "
+        "(thorough 0..4200 dense), every size within 9 (thorough 40) of 128 / 2048 / 4096 and within 1 (thorough 40) of 16 KiB / 64 KiB, 200000 (thorough 1 MiB, 1 MiB+3), "
         "H in {0,1,8,16,32}, compression on/off, compressible / incompressible / zero data, start offsets {0,16,48,64}, slack {0,1,7,8,9,64,4096,70000}; "
         "`cor .. bits|burst|trunc` = EVERY single bit flip / every burst start x lengths 2..32 / every truncation length of a record, through parse_record, "
         "decided by model and implementation (records up to 48 (thorough 200) data bytes for bits/trunc, 14 (56) for bursts, plus compressed 128..300); "
